@@ -301,6 +301,10 @@ func vfGenC17(t *rapid.T) vfC17Case {
 		}
 		pos = j
 	}
+	if rapid.IntRange(0, 9).Draw(t, "framebase") == 0 {
+		// a connection that has been up for a very long time: the 32-bit frame number is about to wrap
+		c.FrameBase = uint32(1<<32 - 1 - rapid.IntRange(0, 60).Draw(t, "towrap"))
+	}
 	return vfC17Case{Rec: c}
 }
 
